@@ -3,6 +3,7 @@ package w
 // C03: a running member never reports itself departed and refutes newer claims.
 
 import (
+	"fmt"
 	"time"
 
 	"github.com/hashicorp/serf/serf"
@@ -40,6 +41,12 @@ func genC03(seed uint64, tier string) *Case {
 				c.Steps = append(c.Steps, Step{Op: "adopt", S: c03Times[g.Intn(2)]})
 			}
 		case x < 11:
+			if g.Bool(0.5) {
+				// a Join of the node's own that stays in flight (the address accepts nothing
+				// and times out after 10 s of fake time) while the following claims arrive
+				c.Steps = append(c.Steps, Step{Op: "joinhang"})
+				continue
+			}
 			c.Steps = append(c.Steps, Step{Op: "gossip-peer"})
 		default:
 			c.Steps = append(c.Steps, Step{Op: "staleself", S: c03Times[g.Intn(2)]})
@@ -74,6 +81,15 @@ func execC03(r *Run) {
 		}
 	}
 	me := c.Nodes[0].Name
+	const blackhole = "10.0.0.77:7946"
+	var hanging *async
+	c.BlockDial = func(from, to string) error {
+		if to == blackhole {
+			time.Sleep(10 * time.Second) // nothing answers: the dial times out
+			return fmt.Errorf("dial %s: i/o timeout", to)
+		}
+		return nil
+	}
 	var trueJoin uint64 // newest join intent the node itself has broadcast
 	// drainJoins empties node 0's broadcast queues and returns the newest join
 	// intent about itself that it had queued.
@@ -212,8 +228,8 @@ func execC03(r *Run) {
 			c.DeliverMsg(&Msg{To: 0, Buf: wEnc(mtJoin, &wJoin{LTime: t, Node: me})})
 			checkAlive(s.String())
 		case "rejoin":
-			if !peer {
-				continue
+			if !peer || (hanging != nil && !hanging.done) {
+				continue // (a second Join would wait for the first one's lock)
 			}
 			a := c.Go("join", func() (int, error) { return c.Nodes[0].S.Join([]string{c.JoinAddr(1)}, false) })
 			if !a.done {
@@ -222,6 +238,13 @@ func execC03(r *Run) {
 			checkAlive("rejoin")
 			drainJoins()
 			r.Logf("rejoin err=%v own=%d", a.err, c.View(0)[me].LTime)
+		case "joinhang":
+			if hanging != nil && !hanging.done {
+				continue
+			}
+			hanging = c.Go("joinhang", func() (int, error) { return c.Nodes[0].S.Join([]string{"blackhole/" + blackhole}, false) })
+			r.Fault("own-join-in-flight")
+			checkAlive("join in flight")
 		case "event":
 			c.Nodes[0].S.UserEvent("e", s.B, false)
 			c.Wait()
